@@ -450,7 +450,12 @@ fn judge_duel(scn: &Scenario, tr: &Trace) -> Judged {
     if regs.len() < 2 {
         return j;
     }
-    let t_q = scn.ops.iter().filter_map(|o| if let Op::PeerSend { msg, .. } = &o.op { if msg.is_query() { Some(o.at) } else { None } } else { None }).min().unwrap_or(u64::MAX);
+    let t_q = scn.ops.iter().filter_map(|o| if let Op::PeerSend { msg, .. } = &o.op { if msg.is_query() { Some(o.at) } else { None } } else { None }).min().unwrap_or(tr.stats.sim_ms);
+    // the end state is judged only after the daemons had time to settle (8 s after the last registration)
+    if t_q > tr.stats.sim_ms || t_q < regs.iter().map(|r| r.2).max().unwrap_or(0) + 8000 {
+        j.abstained += 1;
+        return j;
+    }
     // the names each daemon holds when the questions start: last claim before t_q
     let mut held_i: Vec<Option<Name>> = vec![];
     let mut held_h: Vec<Option<Name>> = vec![];
@@ -825,11 +830,16 @@ impl Property for C08 {
     }
 
     fn judge(&self, scn: &Scenario, tr: &Trace) -> Judged {
-        let j = match scn.family.as_str() {
+        let mut j = match scn.family.as_str() {
             "inject" => judge_inject(scn, tr),
             "tiebreak" => judge_tiebreak(scn, tr),
             _ => judge_duel(scn, tr),
         };
+        if scn.duts.len() >= 3 {
+            for v in j.violations.iter_mut() {
+                v.detail = format!("[three daemons] {}", v.detail);
+            }
+        }
         tag_escaped(j, scn)
     }
 }
